@@ -224,6 +224,53 @@ def score_block(case):
                        "targets": [t[0] for t in targets]}}
 
 
+def large_block(case):
+    """Hundreds to thousands of samples and up to 64 clusters (sizes straddling the powers of two an implementation would block on):
+    score by direct call, with the gradient requested, on a long-lived object and through DiscriminativeModel.score, against the definition."""
+    family, K, n, tag, seed, gseed = case
+    rs = np.random.RandomState(gseed)
+    big_data = lambda d: np.random.RandomState(40_000 + 7 * seed + n + d).normal(size=(n, d))     # noqa: E731 (continuous draws: distinct almost surely)
+    if family == "wasserstein":
+        X = big_data(1)
+        kw, y, A = aff.metric_reference(tag, X, seed)
+        A_ref, scale = ref.Line(X[:, 0]), float(np.ptp(X))
+    elif family == "mmd":
+        X = big_data(2)
+        kw, y, A_ref = aff.kernel_reference(tag, X, seed)
+        scale = float(np.sqrt(np.abs(A_ref).max()))
+    else:
+        X, kw, y, A_ref, scale = big_data(2), {}, None, None, None
+    targets = _targets(family, kw, tag in ("linear", "euclidean"))
+    shared = {label: factory() for label, _, _, factory in targets}
+    mats = []
+    for conc in (1.0, 5.0):
+        P = rs.dirichlet(np.ones(K) * conc, size=n)
+        mats.append(np.maximum(P, 1e-7) / np.maximum(P, 1e-7).sum(1, keepdims=True))
+    hard = np.eye(K)[rs.choice(K, size=n, p=rs.dirichlet(np.ones(K) * 2))]
+    mats.append(0.9 * hard + 0.1 / K)                                  # near-hard memberships, unbalanced clusters
+    v, nt, n_eval = [], 0, 0
+    for P in mats:
+        refs = {}
+        for label, dist, mode, factory in targets:
+            if (dist, mode) not in refs:
+                refs[(dist, mode)] = ref.ref_score_slack(P, A_ref, dist, mode)
+            expected, slack = refs[(dist, mode)]
+            tol = ref.tol(dist, expected, slack, scale) + 1e-12 * n * max(1.0, abs(expected)) * 1e-1
+            g = factory()
+            Ag = g.compute_affinity(X, y)
+            obs = {"call": float(g(P.copy(), Ag)), "call_with_gradient": float(g(P.copy(), Ag, return_grad=True)[0]),
+                   "reused_object": float(shared[label](P.copy(), shared[label].compute_affinity(X, y))),
+                   "model.score": float(_stub(P, label[5:] if label.startswith("name:") else g).score(X, y))}
+            n_eval += len(obs)
+            for via, got in obs.items():
+                if not np.isfinite(got) or abs(got - expected) > tol:
+                    v.append(violation("score_mismatch", {"target": label, "n": n, "K": K, "affinity": tag, "got": got, "expected": expected, "P_seed": gseed},
+                                       target=label, dist=dist, mode=mode, K=K, n=n, via=via))
+        nt += 1
+    return {"v": v[:30], "stats": {"evals": n_eval, "nt_distinct": nt}, "out": [tuple(round(x[0], 9) for x in refs.values())],
+            "sample": {"family": family, "K": K, "n": n, "affinity": tag, "targets": [t[0] for t in targets]}}
+
+
 def explorers(tier, seed):
     thorough = tier == "thorough"
     gseed = 1000 + seed
@@ -259,7 +306,19 @@ def explorers(tier, seed):
     rule_p = ("ALL n-tuples of rows from the interior menu (lattice c/(K+2), near one-hot 1e-3/1e-6 per vertex, near-uniform) "
               "for the listed (K,n), plus seed-generic Dirichlet matrices; every target = registry name, class(ovo flag), and "
               "DiscriminativeModel.score on a stub; non-trivial = prediction matrix whose reference score differs from the lower bound by >1e-6")
+    big_f = [(3, 700), (32, 1500), (64, 700), (5, 2049)] + ([(2, 1300), (40, 3000), (3, 4099), (7, 513)] if thorough else [])
+    big_m = [(3, 700), (16, 600)] + ([(4, 1300), (3, 2049)] if thorough else [])
+    big_w = [(3, 300), (8, 700)] + ([(2, 1300), (5, 513)] if thorough else [])
+    c_big = [("fdiv", K, n, "none", seed, gseed + K + n) for K, n in big_f] + \
+            [("mmd", K, n, tag, seed, gseed + K + n) for K, n in big_m for tag in ("linear", "rbf_g")] + \
+            [("wasserstein", K, n, tag, seed, gseed + K + n) for K, n in big_w for tag in ("euclidean", "l1")]
     return [
+        Explorer("large_shapes", "props.c01", "large_block", c_big, chunk=1, floor=8, case_timeout=1500,
+                 rule="every target (registry name, class x ovo flag, model.score on a stub) on hundreds to thousands of samples and up to 64 clusters: "
+                      "two seed-generic Dirichlet matrices and one near-hard unbalanced matrix per shape; score by plain call, with the gradient "
+                      "requested, on a reused object and through score(); reference = the definition (Wasserstein on 1-D data, where W1 is the "
+                      "closed-form CDF difference); sizes straddle 512/1024/2048/4096 so that any blocked evaluation has a short last block",
+                 bound=f"f-divergences (K,n) in {big_f}; MMD {big_m}; Wasserstein {big_w}"),
         Explorer("fdivergences", "props.c01", "score_block", c_f, chunk=2, floor=100, rule=rule_p,
                  bound=f"(K,n) in {shapes_f}"),
         Explorer("mmd", "props.c01", "score_block", c_m, chunk=2, floor=100,
